@@ -18,11 +18,15 @@ type Layout struct {
 	TrailPct  int    `json:"trail_pct"`  // chance of a trailing comment
 	CmdSpaces bool   `json:"cmd_spaces"` // extra spaces inside << >>
 	DeepDeco  bool   `json:"deep_deco"`  // decoration lines also inside indented bodies
+	MixTabs   bool   `json:"mix_tabs"`   // unit is 8 columns; each line writes it either as 8 spaces or as one tab
 }
 
 func genLayout(tp *Tape) Layout {
 	l := Layout{Indent: "    ", FinalNL: true}
-	switch tp.Int(0, 5, "indentkind") {
+	switch tp.Int(0, 6, "indentkind") {
+	case 6:
+		l.Indent = "        "
+		l.MixTabs = true
 	case 0:
 		l.Indent = "    "
 	case 1:
@@ -170,6 +174,9 @@ func (r *renderer) deco(depth int) {
 			r.sb.WriteString(r.nl)
 		case 1: // whitespace-only line, same indentation character as the file
 			r.sb.WriteString(strings.Repeat(r.l.Indent, r.rng.intn(3)) + r.nl)
+			if r.l.MixTabs {
+				r.rng.next()
+			}
 		case 2: // comment at column 0
 			r.sb.WriteString("// note" + r.nl)
 		case 3: // comment at some indentation
@@ -180,7 +187,12 @@ func (r *renderer) deco(depth int) {
 
 func (r *renderer) emit(depth int, text string, allowTrail bool) {
 	r.deco(depth)
-	r.sb.WriteString(strings.Repeat(r.l.Indent, depth))
+	if r.l.MixTabs && r.rng.chance(50) {
+		// the same column written with tabs: never tabs and spaces on one line
+		r.sb.WriteString(strings.Repeat("\t", depth))
+	} else {
+		r.sb.WriteString(strings.Repeat(r.l.Indent, depth))
+	}
 	r.sb.WriteString(text)
 	if allowTrail && r.l.Deco != 0 && r.rng.chance(r.l.TrailPct) {
 		r.sb.WriteString(" // trailing")
@@ -288,7 +300,7 @@ func renderNodes(nodes []*Node, l Layout, salt uint64) string {
 	if l.CRLF {
 		r.nl = "\r\n"
 	}
-	r.rng = splitmix{s: l.Deco ^ (salt * 0x9e3779b97f4a7c15)}
+	r.rng = splitmix{s: l.Deco ^ (salt * 0x9e3779b97f4a7c15) ^ 0x5bd1e995}
 	for i, n := range nodes {
 		r.node(n)
 		if i < len(nodes)-1 || l.FinalNL {
